@@ -222,6 +222,16 @@ func makeInjected(id int, form string) error {
 	if form == "flags:help-empty" {
 		return &flags.Error{Type: flags.ErrHelp}
 	}
+	if form == "errtype:help" {
+		return flags.ErrHelp // a bare ErrorType value (it implements error)
+	}
+	if form == "errtype:required" {
+		return flags.ErrRequired
+	}
+	if form == "typed-nil-flags" {
+		var e *flags.Error // a nil *flags.Error inside a non-nil error interface
+		return e
+	}
 	parts := strings.SplitN(form, ":", 2)
 	if len(parts) == 2 {
 		fe := &flags.Error{Type: flagsErrTypes[parts[1]], Message: fmt.Sprintf("injected flags error #%d", id)}
@@ -459,6 +469,17 @@ func activeChain(p *flags.Parser) string {
 	return strings.Join(names, ".")
 }
 
+// errText is err.Error(), except that an Error method which panics (a typed nil
+// pointer, say) does not take the harness down with it.
+func errText(err error) (s string) {
+	defer func() {
+		if r := recover(); r != nil {
+			s = fmt.Sprintf("<Error() panicked: %v>", r)
+		}
+	}()
+	return err.Error()
+}
+
 func classifyErr(err error, res *OpResult) {
 	if err == nil {
 		return
@@ -469,7 +490,7 @@ func classifyErr(err error, res *OpResult) {
 			if err == inj {
 				res.Err = "injected"
 				res.Injected = id
-				res.Msg = BStr(err.Error())
+				res.Msg = BStr(errText(err))
 				if fe, ok := err.(*flags.Error); ok && fe != nil {
 					res.ErrType = fe.Type.String()
 				}
@@ -497,7 +518,7 @@ func classifyErr(err error, res *OpResult) {
 		res.Msg = BStr(e.Error())
 	default:
 		res.Err = reflect.TypeOf(err).String()
-		res.Msg = BStr(err.Error())
+		res.Msg = BStr(errText(err))
 	}
 }
 
